@@ -215,11 +215,13 @@ void canary_check(const char *where)
 
 /* ================================================================= world */
 struct world W;
+bool NEXT_WORLD_USE_MUTEX;
 void w_begin(void)
 {
         xfree_all();
         memset(&W, 0, sizeof W);
         W.gptr = NULL;
+        W.use_mutex = NEXT_WORLD_USE_MUTEX;
 }
 struct cat_command *w_group(size_t ncmd, bool disable)
 {
@@ -627,7 +629,7 @@ static void case_reset(void)
 {
         cur_failed = false; CUR_STEP = 0; PHASE = 0; READ_GATE = true;
         ON_READ = NULL; ON_READ_REFUSED = NULL; ON_WRITE = NULL; ON_UNIT = NULL; ON_PHASE = NULL; ON_LOCK = NULL;
-        POLICY = NULL; VPOLICY = NULL;
+        POLICY = NULL; VPOLICY = NULL; NEXT_WORLD_USE_MUTEX = false;
         MX_DEPTH = 0; MX_LOCKS = MX_UNLOCKS = 0; MX_FAIL_LOCK_AT = MX_FAIL_UNLOCK_AT = -1;
         sch_eager(&RS); sch_eager(&WS);
         in_reset(); out_reset(); units_reset(); ev_reset();
@@ -671,7 +673,7 @@ int verif_main(int argc, char **argv)
         for (long c = from; c < to; c++) {
                 CUR_CASE = c; CUR_SEED = seed;
                 if (progress_fd >= 0) { long long v = c; if (pwrite(progress_fd, &v, sizeof v, 0) < 0) {} }
-                alarm(120);
+                alarm(30);
                 case_reset();
                 bool sweep = c < b.sweep;
                 pr_seed(&G, sweep ? 0x5EEDF00DULL : seed + 0x1000003ULL * (uint64_t)QCAP, (uint64_t)c);
